@@ -216,6 +216,8 @@ def classify(stdout, flags, outcome):
 def _job(args):
     kind, text, flags = args
     rt.enable_lark_cache()
+    # the command line reads its file in text mode: \r\n and \r arrive as \n (universal newlines); the API is given what main() sees
+    text = text.replace('\r\n', '\n').replace('\r', '\n')
     try:
         with rt.time_limit(TIME_LIMIT):
             out = api_outcome(text, flags)
@@ -236,6 +238,7 @@ TIME_LIMIT = int(os.environ.get('VERIF_TIME_LIMIT', '120'))     # seconds for on
 
 def _classify_job(text):
     rt.enable_lark_cache()
+    text = text.replace('\r\n', '\n').replace('\r', '\n')
     try:
         with rt.time_limit(TIME_LIMIT):
             return api_outcome(text, {})['outcome']
